@@ -469,7 +469,9 @@ def cond_fns(ctx):
             continue
         tys = [b["locals"][i]["s"] for i in range(1, b["arg_count"] + 1)]
         rs = b["locals"][0]["s"]
-        if not (any("HeaderMap" in x for x in tys) and any("SystemTime" in x for x in tys) and any("HeaderValue" in x for x in tys)):
+        # (the ETag may arrive as &Option<HeaderValue>, Option<&HeaderValue> or as its bytes Option<&[u8]>)
+        if not (any("HeaderMap" in x for x in tys) and any("SystemTime" in x for x in tys) and
+                any("HeaderValue" in x or x == "std::option::Option<&[u8]>" for x in tys)):
             continue
         if not rs.startswith("std::result::Result<"):
             continue
@@ -895,14 +897,20 @@ def c03_estimate(ctx, M):
         if o.kind != "return":
             continue
         v = o.value
-        cases = []      # (variant, value, stop-condition)
-        if isinstance(v, tuple) and v and v[0] == "optif":
-            # Some(sum) while a condition holds, None otherwise (e.g. `.filter(|&a| a < len)`: stop adding once the sum has
-            # reached the bound - sound for the decision because the sum never decreases)
-            cases = [("Some", v[2], None), ("None", None, v)]
-        else:
-            var = o.cons.variant_of(v) if not is_agg(v) else v[3]
-            cases = [(var, agg_get(v, "0") if is_agg(v) and var == "Some" else None, None)]
+        # `.filter(|&a| a < len)`: Some(sum) while a condition holds, None otherwise - stop adding once the sum has reached the
+        # bound (sound for the decision because the sum never decreases); the condition is on the path (`sum OP bound` known)
+        var = o.cons.variant_of(v) if not is_agg(v) else v[3]
+        val0 = agg_get(v, "0") if is_agg(v) and var == "Some" else (("payload", v, "Some", "0") if var == "Some" else None)
+        stop = None
+        for k_, t_, vv_ in o.cons.log:
+            if k_ == "eq" and isinstance(t_, tuple) and t_[0] == "binop" and t_[1] in ("Lt", "Le") and find_const_addend(t_[2], acc) is not None:
+                if var == "Some" and vv_ == 1:
+                    early_caps.add((t_[1], t_[3]))
+                    if val0 is not None and not is_agg(v):
+                        val0 = t_[2]       # the kept receiver: its payload is the sum the condition was asked about
+                elif var == "None" and vv_ == 0:
+                    stop = ("optif", t_, t_[2])
+        cases = [(var, val0, stop)]
         for var, val, stop in cases:
             if var == "Some":
                 # expect acc + c + (r.end - r.start)
@@ -1227,7 +1235,9 @@ def c05_gate(ctx, M):
         is_none = is_agg(arg) and arg[3] == "None"
         is_range = isinstance(arg, tuple) and arg[0] == "call" and arg[1].endswith("HeaderMap::<T>::get") and \
             isinstance(arg[2][1], tuple) and arg[2][1] == ("named", HDR + "RANGE")
-        if is_range and r.o.cons.variant_of(arg) == "None":
+        range_absent = any(e["k"] == "call" and e["callee"].get("path", "").endswith("HeaderMap::<T>::get") and len(e["args"]) > 1 and
+                           e["args"][1] == ("named", HDR + "RANGE") and r.o.cons.variant_of(e.get("result")) == "None" for e in r.o.events)
+        if (is_range and r.o.cons.variant_of(arg) == "None") or (is_none and range_absent):
             # the request has no Range header on this path: handing the (absent) header to the parser and handing it None are
             # the same thing, so the gate has nothing to decide here
             classes["Range header absent -> nothing to keep or drop"] = classes.get("Range header absent -> nothing to keep or drop", 0) + 1
@@ -1267,7 +1277,23 @@ def c05_gate(ctx, M):
         if cmp_true is not None:
             e = cmp_true[0]
             a, b = e["args"]
-            sa, sb = fmt_term(a), fmt_term(b)
+            # (what the references denote, where PX knows it: e.g. bytes taken from the entity's tag once and kept in a local)
+            def _through(x, i):
+                s_ = fmt_term(x) + " " + (fmt_term(e["snap"][i]) if e.get("snap") and len(e["snap"]) > i and e["snap"][i] is not None else "")
+                # references to locals inside the argument: what those locals hold
+                stack, seen_ = [x, e["snap"][i] if e.get("snap") and len(e["snap"]) > i else None], 0
+                while stack and seen_ < 200:
+                    y = stack.pop()
+                    seen_ += 1
+                    if isinstance(y, tuple) and y:
+                        if y[0] == "ref" and len(y) > 2 and isinstance(y[1], tuple) and y[1] and y[1][0] == "L":
+                            v_ = r.o.state.env.get(y[1])
+                            if v_ is not None:
+                                s_ += " " + fmt_term(v_)
+                        else:
+                            stack.extend(z for z in y if isinstance(z, tuple))
+                return s_
+            sa, sb = _through(a, 0), _through(b, 1)
             if not (("IF_RANGE" in sa and "etag" in sb) or ("IF_RANGE" in sb and "etag" in sa)):
                 ctx.violation("C05.R2", "C05.R2|comparator-args", "the gate comparator is not applied to (If-Range value, entity ETag): %s, %s" % (sa[:80], sb[:80]), where=where(e))
     for cls, n in sorted(classes.items()):
